@@ -43,7 +43,21 @@ var alphabet = []symbol{
 	{"finish", "replay-earlier-exchange"}, {"finish", "replay-stale-genuine"}, {"finish", "replay-other-connection"}, {"finish", "unknown-name"}, {"finish", "accessory-name-garbage-sig"},
 	{"finish", "accessory-name-self-signed"}, {"finish", "removed-controller"}, {"finish", "sealed-wrong-key"}, {"finish", "sealed-zero-key"},
 	{"finish", "short"}, {"finish", "empty"}, {"finish", "known-name-empty-sig"}, {"finish", "tampered-ciphertext"}, {"finish", "genuine-other-controller"},
+	{"finish", "degenerate-key+neutral-signature"}, {"finish", "degenerate-key+low-order-signature"}, {"finish", "degenerate-key+self-signed"},
 }
+
+// stored "keys" that are no Ed25519 public keys (wrong length); padded with zeros some of them become points of small
+// order, for which constant byte strings verify as signatures of every message
+var degenerateKeys = map[string][]byte{
+	"weak-1byte-01":   {0x01},
+	"weak-1byte-00":   {0x00},
+	"weak-empty":      {},
+	"weak-31bytes":    append([]byte{0x01}, make([]byte, 30)...),
+	"weak-33bytes":    append(append([]byte{0x01}, make([]byte, 31)...), 0x00),
+	"weak-2bytes-ec":  {0xec, 0xff},
+	"weak-16bytes-01": append([]byte{0x01}, make([]byte, 15)...),
+}
+var degenerateNames = []string{"weak-1byte-01", "weak-1byte-00", "weak-empty", "weak-31bytes", "weak-33bytes", "weak-2bytes-ec", "weak-16bytes-01"}
 
 // exchange is the controller-side state of the exchange opened by the last accepted start on a connection.
 type exchange struct {
@@ -214,6 +228,24 @@ func buildFinish(w *world, p *peer, variant string) (msg []byte, genuine bool) {
 		}
 		e := &refctl.Enc{}
 		return refctl.VerifyM3(ex.encKey, e.Bytes(refctl.TagIdentifier, []byte(id)).B), false
+	case "degenerate-key+neutral-signature", "degenerate-key+low-order-signature", "degenerate-key+self-signed":
+		name := degenerateNames[w.rnd.Intn(len(degenerateNames))]
+		sig := make([]byte, 64)
+		switch variant {
+		case "degenerate-key+neutral-signature":
+			sig[0] = 0x01 // R = the neutral element, S = 0: verifies every message under a key of order 1
+		case "degenerate-key+low-order-signature":
+			lows := [][]byte{{0x01}, {0x00}, {0xec, 0xff, 0xff, 0xff, 0xff, 0xff, 0xff, 0xff, 0xff, 0xff, 0xff, 0xff, 0xff, 0xff, 0xff, 0xff, 0xff, 0xff, 0xff, 0xff, 0xff, 0xff, 0xff, 0xff, 0xff, 0xff, 0xff, 0xff, 0xff, 0xff, 0xff, 0x7f}}
+			copy(sig, lows[w.rnd.Intn(len(lows))])
+			if w.rnd.Intn(2) == 0 {
+				sig[32] = byte(w.rnd.Intn(8))
+			}
+		default:
+			info := append(append(append([]byte{}, ex.pub[:]...), []byte(name)...), ex.accPub...)
+			copy(sig, ed25519.Sign(stranger.LTSK, info))
+		}
+		e := &refctl.Enc{}
+		return refctl.VerifyM3(ex.encKey, e.Bytes(refctl.TagIdentifier, []byte(name)).Bytes(refctl.TagSignature, sig).B), false
 	case "tampered-ciphertext":
 		id, sk := "nobody", stranger.LTSK
 		if me != nil {
@@ -319,6 +351,11 @@ func inprocHistory(hno int, seq []symbol, nctrl int, withRemoved bool, rnd *rand
 		id := refctl.NewIdentity(fmt.Sprintf("ctrl-%d", i), rnd)
 		w.ctrls = append(w.ctrls, id)
 		database.SaveEntity(db.NewEntity(id.ID, id.LTPK, nil))
+	}
+	// pairings whose stored key is not an Ed25519 public key at all (an administrator can store anything): no finish
+	// message naming one of them can carry "a valid signature made with the stored key"
+	for name, key := range degenerateKeys {
+		database.SaveEntity(db.NewEntity(name, key, nil))
 	}
 	if withRemoved {
 		w.removed = refctl.NewIdentity("removed-ctrl", rnd)
@@ -567,7 +604,7 @@ func opensUnder(raw []byte, p *peer) []byte {
 func main() {
 	run = vf.Start("C03", "exploration")
 	r := run
-	r.SetRule("a history = (pairing set of 0..3 controllers, optionally a removed one, 1 or 2 connections, sequence over a 21-symbol pair-verify alphabet); all sequences up to length 2 (quick) / 3 (thorough) " +
+	r.SetRule("a history = (pairing set of 0..3 controllers, optionally a removed one, 1 or 2 connections, sequence over a 28-symbol pair-verify alphabet); all sequences up to length 2 (quick) / 3 (thorough) " +
 		"plus random sequences of length 3..8; after every message the verified state of the session is compared with the model (only a finish that is genuine for the exchange opened by the last accepted start may verify); " +
 		"non-trivial = distinct (pairing set, sequence)")
 	r.Assume("the monitor builds every message itself with refctl and therefore knows which finish messages are genuine; x/crypto X25519 and crypto/ed25519 are correct")
